@@ -21,7 +21,7 @@ RespsC05 ==
 
 RespsC05small ==
     {R(0, FALSE, 1, <<8, 20>>, TRUE), R(0, FALSE, 1, <<0>>, FALSE), R(0, TRUE, 1, <<8>>, FALSE),
-     R(0, FALSE, 0, <<400>>, FALSE), R(3, FALSE, 0, <<40>>, FALSE), R(2, FALSE, 0, <<>>, FALSE),
+     R(0, FALSE, 0, <<400>>, FALSE), R(3, FALSE, 0, <<40>>, FALSE), R(3, FALSE, 0, <<8>>, FALSE), R(2, FALSE, 0, <<>>, FALSE),
      R(5, FALSE, 1, <<40>>, FALSE)}
 
 RespsC10 == {R(0, FALSE, 3, <<300, 300, 300, 300, 300, 300>>, TRUE)}
